@@ -23,6 +23,10 @@ import (
 )
 
 var purityTrees = map[string]map[string]string{
+	// "silent" programs: no helper routine, no function, no string, a few global lines at most (whatever a conversion appends to shared storage shows later)
+	"silent0": {"main.tsh": "// nothing to do\n"},
+	"silent1": {"main.tsh": "var retries int = 3\n"},
+	"silent3": {"main.tsh": "var a int = 1\nvar b int = 2\nc := a + b\n"},
 	// Batch emits some definitions on first use (the LF variable for string defaults / literals with a line break, helper routines): a later program that
 	// needs the same thing through another route must still get it
 	"strdefA": {"main.tsh": "tags := []string{}\ntags[2] = \"x\"\nprint(len(tags), tags[0], tags[2])\n"},
